@@ -4,33 +4,33 @@
 
    [HandN n ws]   : n slots, each one of the 52 real card words, no two equal, ANY slot order.
    [value5 c]     : the rule-based value of five cards = ordinal of their shape (Spec/Poker.v, C01).
-   [best_value ws]: the minimum of value5 over ALL five-card sub-hands of ws = the value of the best
+   [best_value5 ws]: the minimum of value5 over ALL five-card sub-hands of ws = the value of the best
                     poker hand that can be made from the cards (direct rule-based evaluation). *)
 From CKC Require Import Base.Prelude Base.Combs Spec.Layout Spec.Poker.
-From CKC Require Import Model.Five Model.HandRank Proofs.FiveFacts Proofs.CombFacts Proofs.C01 Proofs.TableFacts Proofs.C02.
+From CKC Require Import Model.Five Model.HandRank Proofs.FiveFacts Proofs.CombFacts Proofs.HandFacts Proofs.C01 Proofs.TableFacts Proofs.C02.
 Open Scope N_scope.
 
 (* every entry point returns the rule-based value *)
 Theorem C02_value : forall chk n ws,
   (n = 6 \/ n = 7)%nat -> HandN n ws ->
-  let v := best_value ws in
+  let v := best_value5 ws in
   hand_rank_value chk ws = Ok v /\
   rmap (fun x => hr_value (hr_from x)) (hand_rank_value chk ws) = Ok v /\
   rmap fst (hrvh chk ws) = Ok v /\
   hand_rank_value_validated chk ws = Ok v /\
   1 <= v <= 7462.
-Proof. exact value_n_ok. Qed.
+Proof. exact value_n_spec. Qed.
 
 (* it is no greater than the value of ANY five distinct cards taken from the hand, in any order *)
 Theorem C02_lower : forall n ws s,
-  HandN n ws -> length s = 5%nat -> NoDup s -> incl s ws -> best_value ws <= value5 s.
-Proof. exact lower_ok. Qed.
+  HandN n ws -> length s = 5%nat -> NoDup s -> incl s ws -> best_value5 ws <= value5 s.
+Proof. exact lower_spec. Qed.
 
 (* and it is attained by some five-card sub-hand *)
 Theorem C02_attained : forall n ws,
   (5 <= n)%nat -> HandN n ws ->
-  exists s, Subseq s ws /\ length s = 5%nat /\ Hand5 s /\ best_value ws = value5 s.
-Proof. exact attained_ok. Qed.
+  exists s, Subseq s ws /\ length s = 5%nat /\ Hand5 s /\ best_value5 ws = value5 s.
+Proof. exact attained_spec. Qed.
 
 (* the five-card value used above is the one the five-card ranking returns (C01) *)
 Theorem C02_value5_is_rank : forall chk c, Hand5 c -> hand_rank_value chk c = Ok (value5 c).
